@@ -19,7 +19,14 @@ from framework import Prop
 
 MASK = (1 << 32) - 1
 ZERO_ADDRESS = 0x1000_0040
-FIXED = os.environ.get("C08_PRISTINE", "") == ""   # committed files expect fixes F11 + F14 applied
+# Repairs the tree under test is expected to contain. Committed state: all of them (F11 and F14 are in /repo; FC08a, FC08b
+# and FC08c are shipped under fixes/ and must be applied). `C08_UNFIXED=FC08a,FC08c` (comma separated) tells the model that
+# these are NOT applied (then the corresponding findings D80 / D83 / D82 reappear as violations: they are listed "fixed").
+ALL_FIXES = ["F11", "F14", "FC08a", "FC08b", "FC08c"]
+_unfixed = [x for x in os.environ.get("C08_UNFIXED", "").split(",") if x]
+if os.environ.get("C08_PRISTINE", "") != "":
+    _unfixed = list(ALL_FIXES)
+FIXES = [f for f in ALL_FIXES if f not in _unfixed]
 
 REG_OPTS = ["a", "c", "b", "t"]
 XDMA_OPTS = ["maxpool_ext", "add_ext", "add_ext_long", "rescale_down_ext", "rescale_up_ext", "memset_ext", "t",
@@ -242,12 +249,20 @@ def tree_of(v, region_op, first_generic, hw_refs=None):
                 for i, r in enumerate(hw_refs):
                     if s.source is r:
                         return ["dim", i]
+        if isinstance(s, arith.DivUIOp):
+            dm, four = s.lhs.owner, s.rhs.owner
+            if (isinstance(dm, memref.DimOp) and isinstance(four, arith.ConstantOp) and four.value.value.data == 4
+                    and isinstance(dm.index.owner, arith.ConstantOp) and dm.index.owner.value.value.data == 0):
+                for i, r in enumerate(hw_refs):
+                    if dm.source is r:
+                        return ["dimdiv4", i]
         if isinstance(s, arith.AddiOp):
             p, off = s.lhs.owner, s.rhs.owner
             if isinstance(p, memref.ExtractAlignedPointerAsIndexOp) and isinstance(off, arith.MuliOp):
                 md, eb = off.lhs.owner, off.rhs.owner
                 if (isinstance(md, memref.ExtractStridedMetaDataOp) and md.source is p.source
-                        and off.lhs is md.offset and isinstance(eb, arith.ConstantOp) and eb.value.value.data == 4):
+                        and off.lhs is md.offset and isinstance(eb, arith.ConstantOp)
+                        and eb.value.value.data == p.source.type.element_type.size):   # bytes per element
                     for i, r in enumerate(hw_refs):
                         if p.source is r:
                             return ["ptr", i]
@@ -286,10 +301,143 @@ def region_verifies(acc, op, opnds):
         return False
 
 
+def launch_of(ops):
+    """[(launch field, constant written)] of the accfg.launch"""
+    from snaxc.dialects import accfg
+    from xdsl.dialects import arith
+    launch = next(o for o in ops if isinstance(o, accfg.LaunchOp))
+    res = []
+    for name, v in launch.iter_params():
+        d = v.owner
+        if not isinstance(d, arith.ConstantOp):
+            raise ValueError("launch value is not a constant")
+        res.append([name, d.value.value.data])
+    return res
+
+
+def launch_attrs_of(ops):
+    """the attributes gemmx attaches to the launch for channel-wise requantisation"""
+    from snaxc.dialects import accfg
+    from xdsl.dialects.builtin import DenseArrayBase, IntegerAttr
+    launch = next(o for o in ops if isinstance(o, accfg.LaunchOp))
+    res = {}
+    for k, a in launch.attributes.items():
+        if isinstance(a, DenseArrayBase):
+            res[k] = [int(x) for x in a.get_values()]
+        elif isinstance(a, IntegerAttr):
+            res[k] = [a.value.data]
+        else:
+            raise ValueError(f"unexpected launch attribute {k}")
+    return res
+
+
+def _c20():
+    import importlib
+    try:
+        return importlib.import_module("props.c20")
+    except ImportError:
+        return importlib.import_module("c20")
+
+
+def phs_element(case, keep):
+    """the accelerator's processing element: the real encoder on every kernel of the history, merged with the real
+    `append_to_abstract_graph` -> (abstract PEOp, [concrete PEOp per kernel]) or None if the history is not mergeable"""
+    from snaxc.phs.combine import append_to_abstract_graph
+    c20 = _c20()
+    try:
+        ks = []
+        for b in case["bodies"]:
+            pe, owner = c20.real_encode(b, "acc1")
+            keep.append(owner)
+            pe.verify()
+            ks.append(pe)
+        abst, owner = c20.real_encode(case["bodies"][0], "acc1")
+        keep.append(owner)
+        for k in ks[1:]:
+            append_to_abstract_graph(k, abst)
+        abst.verify()
+    except Exception:  # noqa: BLE001  (outside C08: the history is C20's business)
+        return None
+    return abst
+
+
+def run_real_phs(case):
+    from snaxc.accelerators.snax_phs import SNAXPHSAccelerator
+    from snaxc.dialects import accfg, snax_stream
+    from snaxc.phs.decode import MappingNotFoundError, decode_abstract_graph
+    from snaxc.phs.template_spec import TemplateSpec
+    from xdsl.ir import Block, Region
+    from xdsl.ir.affine import AffineMap
+    c20 = _c20()
+    if not all(c20.well_typed(b) for b in case["bodies"] + [case["kernel"]]):
+        return {"invalid_input": True}
+    keep = []
+    abst = phs_element(case, keep)
+    if abst is None:
+        return {"invalid_input": True}
+    t = case["tmpl"]
+    ident = AffineMap.identity(len(t["bounds"]))
+    acc = SNAXPHSAccelerator(abst, TemplateSpec(tuple([ident] * t["nin"]), (ident,), tuple(t["bounds"])))
+    real_cfg = [{"t": [str(f.value) for f in st.temporal_dims], "s": list(st.spatial_dims), "o": []}
+                for st in acc.streamer_config.data.streamers]
+    if real_cfg != case["cfg"]:
+        raise RuntimeError(f"harness: template configuration {real_cfg} differs from the case's {case['cfg']}")
+    out = {"fields": list(acc.fields), "true": abst.get_true_switches(), "wf": True}
+    vals, opnds = mk_operands(case["op"]["zero"], case["op"].get("src"))
+    mod, gen = c20.build_generic(case["kernel"])
+    keep.append(mod)
+    gen.detach()
+    outer = Block(arg_types=[])
+    outer.add_op(gen)
+    op = snax_stream.StreamingRegionOp(vals[:-1], vals[-1:], mk_patterns(case["op"]["pats"]), acc.name, Region(outer))
+    opnds[2].add_op(op)
+    out["accepts"] = region_verifies(acc, op, opnds)
+    try:
+        ops = acc.convert_to_acc_ops(op)
+    except (IndexError, AssertionError, ValueError, ZeroDivisionError, NotImplementedError, MappingNotFoundError) as e:
+        out["raised"] = type(e).__name__
+        return out
+    setup = next(o for o in ops if isinstance(o, accfg.SetupOp))
+    out["vals"] = [tree_of(v, op, None) for v in setup.values]
+    out["names"] = [p.data for p in setup.param_names]
+    out["launch"] = launch_of(ops)
+    # for the oracle only (not compared with the model): a fresh decode of a fresh encoding of the kernel
+    k2, owner = c20.real_encode(case["kernel"], "acc1")
+    keep.append(owner)
+    out["_decoded"] = [int(x) for x in decode_abstract_graph(abst, k2)]
+    return out
+
+
+ALU_LINALG_SRC = """
+func.func public @streamer_add(%A: memref<?xi64>, %B: memref<?xi64>, %D: memref<?xi64>) -> () {
+  linalg.generic { indexing_maps = [], iterator_types = ["parallel"], library_call = "snax_alu" }
+  ins(%A, %B: memref<?xi64>, memref<?xi64>) outs(%D: memref<?xi64>) {
+  ^bb0(%a: i64, %b: i64, %d: i64):
+    %r0 = arith.addi %a, %b : i64
+    linalg.yield %r0 : i64
+  }
+  func.return
+}
+"""
+
+
 def run_real(case):
     """-> {"fields": [...], "vals": [...]} | {"fields": [...], "raised": cls}"""
     from snaxc.dialects import accfg
     kind = case["kind"]
+    if kind == "alu_linalg":
+        # legacy path: linalg.generic handed to the ALU directly (what convert-linalg-to-accfg does for library_call)
+        import snaxrun
+        from snaxc.accelerators.snax_alu import SNAXAluAccelerator
+        from xdsl.dialects import linalg
+        mod = snaxrun.parse(ALU_LINALG_SRC)
+        g = next(o for o in mod.walk() if isinstance(o, linalg.GenericOp))
+        acc = SNAXAluAccelerator(mk_cfg(case["cfg"]))
+        ops = acc.convert_to_acc_ops(g)
+        setup = next(o for o in ops if isinstance(o, accfg.SetupOp))
+        refs = list(g.operands)
+        return {"fields": list(acc.fields), "vals": [tree_of(v, None, None, refs) for v in setup.values],
+                "names": [p.data for p in setup.param_names], "launch": launch_of(ops)}
     if kind == "hwpe":
         import snaxrun
         from snaxc.accelerators.snax_hwpe_mult import SNAXHWPEMultAccelerator
@@ -302,7 +450,7 @@ def run_real(case):
         refs = list(g.operands)
         return {"fields": list(acc.fields),
                 "vals": [tree_of(v, None, None, refs) for v in setup.values],
-                "names": [n for n, _ in setup.iter_params()]}
+                "names": [n for n, _ in setup.iter_params()], "launch": launch_of(ops)}
     if kind == "alu":
         from snaxc.accelerators.snax_alu import SNAXAluAccelerator
         acc = SNAXAluAccelerator(mk_cfg(case["cfg"]))
@@ -312,6 +460,8 @@ def run_real(case):
     elif kind == "xdma":
         from snaxc.accelerators.snax_xdma import SNAXXDMAAccelerator
         acc = SNAXXDMAAccelerator(mk_cfg(case["cfg"], xdma=True))
+    elif kind == "phs":
+        return run_real_phs(case)
     else:
         raise ValueError(kind)
     out = {"fields": list(acc.fields)}
@@ -326,6 +476,9 @@ def run_real(case):
     out["vals"] = [tree_of(v, op, first_generic) for v in setup.values]
     # the names the values are zipped with must be the accelerator's field tuple
     out["names"] = [n for n, _ in zip((p.data for p in setup.param_names), range(10 ** 6))]
+    out["launch"] = launch_of(ops)
+    if kind == "gemmx":
+        out["launch_attrs"] = launch_attrs_of(ops)
     return out
 
 
@@ -333,7 +486,7 @@ def run_real(case):
 # independent transcription of what each register name means (oracle only)
 # ------------------------------------------------------------------------------------------------
 ENV = {"opnd": lambda i: 0x2000_0000 + 0x1000 * i + 8, "inp": lambda i: 0x155 + 37 * i,
-       "ptr": lambda i: 0x3000_0000 + 0x100 * i, "dim": lambda i: 77 + i}
+       "ptr": lambda i: 0x3000_0000 + 0x100 * i, "dim": lambda i: 77 + i, "dimdiv4": lambda i: 19 + i}
 
 
 def ev(t):
@@ -393,10 +546,24 @@ def meaning_of_name(case, name):
     if kind == "hwpe":
         return {"A": ENV["ptr"](0), "B": ENV["ptr"](1), "O": ENV["ptr"](2), "vector_length": ENV["dim"](0),
                 "nr_iters": 1, "mode": 1}.get(name)
+    if kind == "alu_linalg":
+        # elementwise op over 1-d i64 memrefs on 4 lanes: 8 bytes between lanes, dim/4 steps of 32 bytes
+        m = re.match(r"^([abc])_(ptr_low|ptr_high|sstride_0|bound_0|tstride_0)$", name)
+        if m:
+            s_ = ord(m.group(1)) - 97
+            return {"ptr_low": ENV["ptr"](s_), "ptr_high": 0, "sstride_0": 8, "bound_0": ENV["dimdiv4"](0),
+                    "tstride_0": 32}[m.group(2)]
+        return {"alu_mode": 0, "loop_bound_alu": ENV["dimdiv4"](0)}.get(name)
     cfg, op = case["cfg"], case["op"]
     pats = op["pats"]
-    if kind == "alu":
-        if name == "alu_mode":
+    if kind == "phs":
+        m = re.match(r"^phs_switch_(\d+)$", name)
+        if m:
+            dec = case.get("_decoded") or []
+            i = int(m.group(1))
+            return dec[i] & MASK if i < len(dec) else None     # the i-th value the decoder chose for this kernel
+    if kind in ("alu", "phs"):
+        if name == "alu_mode" and kind == "alu":
             return 0
         if name == "loop_bound_alu":
             # the number of steps of the streams
@@ -795,6 +962,23 @@ def noncanonical_small(rng):
             yield {"kind": "xdma", "cfg": xcfg, "op": xop, "kernel": ["other"]}
 
 
+def gen_phs(rng, tier):
+    """snax_phs: a processing element merged from a random kernel history (C20's generator), a template with 1..2 dims,
+    and a region whose generic is one of the kernels (or, rarely, a kernel the element was not built for)"""
+    c20 = _c20()
+    bodies = c20.gen_history(rng, tier, 6)
+    rng.shuffle(bodies)
+    nin = len(bodies[0]["arg_tys"]) - 1
+    bounds = [rng.choice([2, 4, 8]) for _ in range(rng.choice([1, 1, 2]))]
+    cfg = [{"t": ["n"] * len(bounds), "s": list(bounds), "o": []} for _ in range(nin + 1)]
+    kernel = rng.choice(bodies)
+    if rng.random() < 0.1:
+        kernel = c20.gen_body(rng, bodies[0]["arg_tys"], rng.randint(1, 3))
+    op = gen_streamop(rng, cfg, malformed=rng.random() < 0.1)
+    return {"kind": "phs", "cfg": cfg, "op": op, "bodies": bodies, "kernel": kernel,
+            "tmpl": {"nin": nin, "bounds": bounds}}
+
+
 def gemmx_shapes(rng):
     """(q)mac, (q)mac->rescale, (q)mac->add, (q)mac->add->rescale, (q)mac->add->add->rescale on the default geometry"""
     # every supported gemmx region shape x output type x per-tensor / per-channel rescale on the default geometry
@@ -866,10 +1050,17 @@ class C08(Prop):
     def cases(self, rng, tier):
         n = 900 if tier == "quick" else 8000
         yield {"kind": "hwpe"}
+        yield {"kind": "alu_linalg", "cfg": [dict(x) for x in ALU_DEFAULT]}
+        # 17 fields by coincidence (8 + 7 + 2): same count as the table, different names
+        yield {"kind": "alu_linalg", "cfg": [{"t": ["n", "n"], "s": [4, 2], "o": []}, {"t": ["n", "n"], "s": [4], "o": []}]}
+        for _ in range(6):
+            yield {"kind": "alu_linalg", "cfg": [gen_streamer(rng, REG_OPTS) for _ in range(rng.randint(1, 4))]}
         yield from pointer_sources(rng)
         yield from noncanonical_small(rng)
         for i in range(n // 6):
             yield gen_noncanonical(rng, ("alu", "xdma", "gemmx")[i % 3])
+        for i in range(n // 6):
+            yield gen_phs(rng, tier)
         if tier != "thorough":
             yield from gemmx_shapes(rng)
         if tier == "thorough":
@@ -897,7 +1088,7 @@ class C08(Prop):
         if k == "hwpe":
             return [{"fn": "c08.hwpe", "args": {}}]
         if k == "alu":
-            return [{"fn": "c08.alu", "args": {"cfg": case["cfg"], "op": case["op"]}}]
+            return [{"fn": "c08.alu", "args": {"cfg": case["cfg"], "op": case["op"], "fixes": FIXES}}]
         if k == "gemmx":
             kern = case["kernel"]
             if kern[0] == "rescale":
@@ -906,10 +1097,15 @@ class C08(Prop):
             generics = [kern] + [["add"]] * case.get("mid", 0)
             if case["post"] is not None:
                 generics.append(["rescale", dr_data(case["post"])])
-            return [{"fn": "c08.gemmx", "args": {"cfg": case["cfg"], "n": case["n"], "fixed": FIXED, "op": case["op"],
+            return [{"fn": "c08.gemmx", "args": {"cfg": case["cfg"], "n": case["n"], "fixes": FIXES, "op": case["op"],
                                                   "generics": generics, "i8out": case["i8out"]}}]
+        if k == "alu_linalg":
+            return [{"fn": "c08.alu_linalg", "args": {"cfg": case["cfg"]}}]
+        if k == "phs":
+            return [{"fn": "c08.phs", "args": {"cfg": case["cfg"], "op": case["op"], "fixes": FIXES,
+                                                "bodies": case["bodies"], "kernel": case["kernel"]}}]
         if k == "xdma":
-            return [{"fn": "c08.xdma", "args": {"cfg": case["cfg"], "fixed": FIXED, "op": case["op"],
+            return [{"fn": "c08.xdma", "args": {"cfg": case["cfg"], "fixes": FIXES, "op": case["op"],
                                                  "kernel": case["kernel"]}}]
         return []
 
@@ -923,9 +1119,17 @@ class C08(Prop):
             out["names"] = list(out["fields"])
         return out
 
+    def compare(self, case, impl_out, model_out):
+        # keys starting with "_" are notes of the real side for the oracle, not part of the correspondence
+        if isinstance(impl_out, dict):
+            impl_out = {k: v for k, v in impl_out.items() if not k.startswith("_")}
+        return super().compare(case, impl_out, model_out)
+
     # -- the property on the real output --------------------------------------------------------
     def oracle(self, case, impl_out):
         out = []
+        if impl_out.get("invalid_input"):
+            return []
         if "raised" in impl_out and "fields" not in impl_out:
             return [{"what": f"building the accelerator raised {impl_out['raised']}: {impl_out.get('msg')}",
                      "finding": None}]
@@ -933,6 +1137,12 @@ class C08(Prop):
             return []       # loud failure: no configuration is emitted (both sides must agree on it)
         fields, vals, names = impl_out["fields"], impl_out["vals"], impl_out["names"]
         kind = case["kind"]
+        if kind == "phs":
+            case = dict(case, _decoded=impl_out.get("_decoded"))
+            nsw = sum(1 for f in fields if f.startswith("phs_switch_"))
+            if nsw != impl_out.get("true") or len(impl_out.get("_decoded") or []) != nsw:
+                out.append({"what": f"{nsw} phs_switch fields, get_true_switches() = {impl_out.get('true')}, decoder "
+                                    f"yields {len(impl_out.get('_decoded') or [])} values", "finding": None})
         if names != fields:
             out.append({"what": "setup op is not built from the accelerator's field tuple", "finding": None})
         if len(set(fields)) != len(fields) and not any(len(set(s["o"])) != len(s["o"]) for s in case.get("cfg", [])):
@@ -944,6 +1154,8 @@ class C08(Prop):
             elif kind == "gemmx" and case["kernel"][0] == "mac" and case["i8out"] and case["post"] is not None and (
                     1 < len(case["post"]["shifts"]) < case["n"] or 1 < len(case["post"]["mults"]) < case["n"]):
                 fid = "D81"
+            elif kind == "alu_linalg" and case["cfg"] != ALU_DEFAULT:
+                fid = "DC08a"
             elif kind == "xdma" and case["kernel"][0] == "notgeneric":
                 fid = "D83"
             elif kind == "xdma" and any("c" not in s["o"] for s in case["cfg"]):
@@ -962,12 +1174,16 @@ class C08(Prop):
                 got, want = got & 1, want[1]
             elif isinstance(want, tuple):
                 got, want = got & want[2], want[1]
+            legacy_table = kind == "alu_linalg" and case["cfg"] != ALU_DEFAULT     # DC08a: table of the default configuration
             if want is None:
-                out.append({"what": f"register {name} has no meaning for this configuration/operation", "finding": None})
+                out.append({"what": f"register {name} has no meaning for this configuration/operation",
+                            "finding": "DC08a" if legacy_table else None})
                 break
             if got != want & MASK:
                 fid = None
-                if kind == "hwpe" and name in ("vector_length", "nr_iters"):
+                if legacy_table:
+                    fid = "DC08a"
+                elif kind == "hwpe" and name in ("vector_length", "nr_iters"):
                     fid = "D10"
                 elif kind == "xdma" and re.search(r"_enabled_(chan|byte)$", name) and len(set(case["op"]["zero"])) > 1:
                     fid = "D80"
@@ -984,7 +1200,7 @@ class C08(Prop):
                 out.append({"what": f"register {name} receives {got:#x}, its name means {want & MASK:#x}", "finding": fid})
                 if fid is None:
                     break
-        if impl_out.get("accepts") and kind != "hwpe" and len(vals) == len(fields):
+        if impl_out.get("accepts") and kind not in ("hwpe", "alu_linalg") and len(vals) == len(fields):
             # A region the verifier accepts gets registers that mean exactly the pattern as written: the (bound, stride)
             # registers of every streamer generate the temporal address stream of its stride pattern (a reused dimension
             # with stride 0 visits its address once). Nothing may be dropped silently.
@@ -1006,6 +1222,27 @@ class C08(Prop):
                                         f"({prod(b for b, _ in got)} instead of {prod(b for b, _ in want)} steps)",
                                 "finding": None})
                     break
+        # the launch: every launch field of the accelerator gets its start value
+        want_launch = {"alu": [["launch_streamer", 1], ["launch_alu", 1]], "gemmx": [["launch_streamer", 1], ["launch_gemmx", 1]],
+                       "xdma": [["launch_start", 1]], "phs": [["launch_streamer", 1], ["launch_alu", 1]],
+                       "alu_linalg": [["launch_streamer", 1], ["launch_alu", 1]],
+                       "hwpe": [["launch", 0]]}[kind]
+        if impl_out.get("launch") != want_launch:
+            out.append({"what": f"launch op writes {impl_out.get('launch')}, expected {want_launch}", "finding": None})
+        if kind == "gemmx" and len(vals) == len(fields):
+            # channel-wise requantisation with more channels than columns: the complete arrays of the kernel.rescale
+            # (as written) and M travel as launch attributes, exactly when they do not fit the registers
+            want = {}
+            r = case["post"] if (case["kernel"][0] == "mac" and case["i8out"]) else None
+            if r is not None:
+                n = case["n"]
+                if (len(eff(r["shifts"], n)) + 3) // 4 > (n + 3) // 4:
+                    want["shift_vals"] = list(r["shifts"])
+                if len(eff(r["mults"], n)) > n:
+                    want["mult_vals"] = list(r["mults"])
+                    want["m"] = [ev(dict(zip(fields, vals))["M"])]
+            if impl_out.get("launch_attrs") != want:
+                out.append({"what": f"launch attributes {impl_out.get('launch_attrs')}, the kernel needs {want}", "finding": None})
         if kind == "gemmx" and not out:
             # kernel loop counts agree with the number of temporal steps of stream A (when the streams of the
             # operation are consistent: the output loops are a sub-nest of A's, i.e. M divides steps(A))
@@ -1026,7 +1263,7 @@ class C08(Prop):
     def nontrivial(self, case, impl_out):
         if "vals" not in impl_out:
             return False
-        if case["kind"] == "hwpe":
+        if case["kind"] in ("hwpe", "alu_linalg"):
             return True
         cfg, op = case["cfg"], case["op"]
         for st, p in zip(cfg, op["pats"]):
@@ -1034,7 +1271,7 @@ class C08(Prop):
                 return True
             if any(f == "r" and t == 0 and b > 1 for f, b, t in zip(st["t"], p["ub"], p["ts"])):
                 return True
-        return any(op["zero"]) or case["kind"] == "gemmx"
+        return any(op["zero"]) or case["kind"] == "gemmx" or (case["kind"] == "phs" and impl_out.get("true", 0) > 0)
 
     def stats_key(self, case, impl_out):
         k = case["kind"]
@@ -1052,7 +1289,13 @@ class C08(Prop):
         return k
 
     def shrink(self, case):
-        if case["kind"] == "hwpe":
+        if case["kind"] in ("hwpe", "alu_linalg"):
+            return
+        if case["kind"] == "phs":
+            # the configuration is tied to the template, the kernel to the history: only the history shrinks
+            for i in range(len(case["bodies"])):
+                if len(case["bodies"]) > 1:
+                    yield dict(case, bodies=case["bodies"][:i] + case["bodies"][i + 1:])
             return
         cfg, op = case["cfg"], case["op"]
         # drop a streamer (with its pattern and operand), except for gemmx whose operand roles are positional
